@@ -153,7 +153,18 @@ impl QuicConnector {
     async fn get_connection(self: &Arc<Self>) -> Result<QuicConn, Error> {
         let mut c = self.connection.lock().await;
         if c.is_none() {
-            *c = Some(self.create_connection().await?);
+            // quinn keeps retransmitting its first packet with exponential back-off for as long as the idle
+            // timeout allows: bound the attempt, so that requests waiting for this lock get an answer and the
+            // next request starts afresh instead of waiting for a retransmission that is minutes away
+            let conn = tokio::time::timeout(HANDSHAKE_TIMEOUT, self.create_connection())
+                .await
+                .unwrap_or_else(|_| {
+                    Err(err_msg(format!(
+                        "quic: upstream did not answer the connection attempt within {} seconds",
+                        HANDSHAKE_TIMEOUT.as_secs()
+                    )))
+                })?;
+            *c = Some(conn);
         }
         Ok(c.clone().unwrap())
     }
